@@ -97,6 +97,7 @@ struct CommWorld {
     calls_past_deadline: u32,
     first_clock_pending: Option<u64>, // time limit of the read() whose first clock reading is awaited
     expect_close_next: bool,
+    expect_write_next: bool, // the last poll reported the stdin pipe writable: this round must write
     aborted: bool,
     had_timeout: bool,
 }
@@ -243,6 +244,15 @@ impl CommWorld {
             self.problem("C02", m);
         }
         self.expect_close_next = false;
+        if self.expect_write_next && what != "write" {
+            let m = format!(
+                "poll reported the stdin pipe writable but this round did not write (next call: {}): delivery of the input is \
+                 postponed while output is pending, so a child that keeps producing output never gets its input or end-of-file",
+                what
+            );
+            self.problem("C02", m);
+        }
+        self.expect_write_next = false;
         if let Some(d) = self.deadline {
             if self.now >= d {
                 self.calls_past_deadline += 1;
@@ -359,6 +369,7 @@ impl Kernel for CommWorld {
                 if fds.len() > 0 {
                     fds[0].revents = ri;
                 }
+                self.expect_write_next = ri != 0;
                 if fds.len() > 1 {
                     fds[1].revents = ro;
                 }
@@ -608,6 +619,7 @@ pub fn run_case(p: &mut Popen, c: &Case) -> CaseOut {
         calls_past_deadline: 0,
         first_clock_pending: None,
         expect_close_next: false,
+        expect_write_next: false,
         aborted: false,
         had_timeout: false,
     };
